@@ -10,7 +10,7 @@ Reader side (`_parse`, lines 999-1154, and the typing methods 398-629)
   tdFind/tdRemove `re.findall` / `re.sub(…, '')` with that expression (leftmost, non-overlapping)
   bodyDefs        `re.findall(r'\S+\s+\S+;', definition)` + `replace(';','')` + `re.split(r'\s+')`
   stripArr        `re.sub(r'[\[<].*[\]>]$', '', column)`
-  selectDef/typeSearch/typeOf   yanny.type   (the struct is picked by `x.find(name) > 0`)
+  selectDef/typeSearch/typeOf   yanny.type   (the struct is picked by its trailing `} NAME;`)
   baseType/isArrayT/arrayLength/charLength/enumLabels   basetype/isarray/array_length/char_length/isenum
   lineLoop        the `for line in lines.split('\n')` loop: skip rules, strip, trailing comment,
                   double braces, dispatch on the upper-cased first word, rows / keyword pairs
@@ -280,14 +280,24 @@ def symInsert (tabs : List (Str × List Str)) (name : Str) (cols : List Str) : L
 
 /-! ## reader: typing from the typedef text -/
 
-/-- the struct text `type()` works on: exactly one text with `find(name.lower()) > 0`, else exactly
-one with `find(name.upper()) > 0` (D16/D17 live here) -/
+/-- `re.search(r'\}\s*(\w+)\s*;\s*$', text).group(1)`: the name a typedef text defines.  Scanned from
+the end: white space, `;`, white space, a maximal run of word characters, white space, `}`. -/
+def tdName (text : Str) : Option Str :=
+  match text.reverse.dropWhile isSpace with
+  | ';' :: r =>
+    let r1 := r.dropWhile isSpace
+    let w := r1.takeWhile isWordCh
+    if w.isEmpty then none else
+    match (r1.dropWhile isWordCh).dropWhile isSpace with
+    | '}' :: _ => some w.reverse
+    | _ => none
+  | _ => none
+
+/-- the struct text `type()` works on (after the D16/D17 fix): the one whose typedef name - the word
+before the final `;` - equals the table name, ignoring case; `None` unless there is exactly one -/
 def selectDef (structs : List Str) (table : Str) : Option Str :=
-  let pos := fun (n : Str) (x : Str) => match findSub n x with | some i => i > 0 | none => false
-  let defl := structs.filter (pos (lower table))
-  let defu := structs.filter (pos (upper table))
-  if defl.length != 1 && defu.length != 1 then none
-  else if defl.length == 1 then defl.head? else defu.head?
+  let defs := structs.filter (fun x => (tdName x).map upper == some (upper table))
+  if defs.length != 1 then none else defs.head?
 
 def lastCloseAux : Str → Nat → Option Nat → Option Nat
   | [], _, best => best
